@@ -362,7 +362,39 @@ func c09FSChain(spell, via int) core.Result {
 	return core.Okay(true, out)
 }
 
+// c09Fresh: one template of a chain served by the FilesystemLoader is rewritten (same length, same modification time)
+// between two executions on the same environment: the second execution resolves the chain as the files are now.
+func c09Fresh(which int) core.Result {
+	dir := fsFreshDir("c09fresh")
+	root := [2]string{"R<{% block a %}r1{% endblock %}>", "R<{% block a %}r2{% endblock %}>"}
+	mid := [2]string{"{% extends 'root.twig' %}{% block a %}M1({{ parent() }}){% endblock %}", "{% extends 'root.twig' %}{% block a %}M2({{ parent() }}){% endblock %}"}
+	leaf := [2]string{"{% extends p %}{% block a %}C[{{ parent() }}]{% endblock %}", "{% extends p %}{% block a %}D[{{ parent() }}]{% endblock %}"}
+	v := [3]int{}
+	v[which] = 1
+	fsPut(dir, "root.twig", root[0])
+	fsPut(dir, "mid.twig", mid[0])
+	fsPut(dir, "leaf.twig", leaf[0])
+	env := stick.New(stick.NewFilesystemLoader(dir))
+	ctx := map[string]stick.Value{"p": "mid.twig"}
+	o1, e1, p1 := tryExec(env, "leaf.twig", ctx)
+	fsPut(dir, "root.twig", root[v[0]])
+	fsPut(dir, "mid.twig", mid[v[1]])
+	fsPut(dir, "leaf.twig", leaf[v[2]])
+	o2, e2, p2 := tryExec(env, "leaf.twig", ctx)
+	if p1 != "" || p2 != "" || e1 != nil || e2 != nil {
+		return core.Violation("error", fmt.Sprintf("filesystem chain: %v %v %s %s", e1, e2, p1, p2))
+	}
+	want2 := "R<" + []string{"C", "D"}[v[2]] + "[M" + itoa(v[1]+1) + "(r" + itoa(v[0]+1) + ")]>"
+	if o1 != "R<C[M1(r1)]>" || o2 != want2 {
+		return core.Violation("resolution", fmt.Sprintf("filesystem chain renders %q; after template %d of (root, mid, leaf) was rewritten (same length and modification time) the same environment renders %q, want %q", o1, which, o2, want2))
+	}
+	return core.Okay(true, o2)
+}
+
 func c09Run(c core.Case) core.Result {
+	if c.Fam == "fresh" {
+		return c09Fresh(c.N[0])
+	}
 	if c.Fam == "fschain" {
 		return c09FSChain(c.N[0], c.N[1])
 	}
@@ -539,6 +571,10 @@ func c09Levels(tier string) []core.Level {
 				for via := 0; via < 3; via++ {
 					emit(core.Case{Fam: "fschain", N: []int{spell, via}})
 				}
+			}
+			// history: the root, the middle or the leaf file rewritten between two executions on one environment
+			for which := 0; which < 3; which++ {
+				emit(core.Case{Fam: "fresh", N: []int{which}})
 			}
 		}},
 		{Name: "chains of 1..4 templates x 2 block names x {absent, override, override+parent()} per level x 3 root layouts x 3 parent-reference forms x use (none / plain / aliased / three aliases in one tag, at every level) x block()", Gen: func(emit func(core.Case)) { c09Gen(4, 2, 4, emit) }},
